@@ -84,4 +84,50 @@ def run(tier):
             fuzzrun.campaign(ck)
         except ImportError:
             ck.note_inconclusive("fuzz campaign module not present")
+        miri_slice(ck, [w[1] for w in wl if w[0] in ("valid", "faulty", "single_fault", "finding_witness")][::max(1, len(wl) // 2000)][:96])
+    if tier == "thorough":
+        from vlib import cov
+        cov.report(ck, "C16", srcs)
     return ck.finish()
+
+
+def miri_slice(ck, srcs, shards=16):
+    """UB / leak monitor on the expander itself (syn and proc_macro2 contain `unsafe`): a slice of the workload is executed
+    under Miri. A Miri diagnostic is an abnormal end of expansion; a clean run is reported as a count, not as memory safety."""
+    import json
+    import subprocess
+    from concurrent.futures import ThreadPoolExecutor
+    crate = common.harness_dir("xdrv")
+    tgt = common.os.path.join(common.WORK, "tgt-miri")
+    parts = [srcs[i::shards] for i in range(shards)]
+
+    def one(part):
+        reqs = [json.dumps({"id": i, "src": s, "reps": 0, "notext": True}) for i, s in enumerate(part)]
+        if not reqs:
+            return part, [], ""
+        try:
+            p = subprocess.run(["cargo", "+nightly", "miri", "run", "--offline", "--features", "s1", "--target-dir", tgt, "--"] + reqs, cwd=crate, env=dict(common.ENV),
+                               stdout=subprocess.PIPE, stderr=subprocess.PIPE, timeout=3000)
+        except subprocess.TimeoutExpired:
+            return part, None, "timeout"
+        outs = [json.loads(l) for l in p.stdout.decode().split("\n") if l.strip().startswith("{")]
+        return part, outs, p.stderr.decode("utf-8", "replace")
+    done = 0
+    # first shard alone so that the Miri sysroot / dependency build is not raced
+    results = [one(parts[0])]
+    with ThreadPoolExecutor(max_workers=8) as ex:
+        results += list(ex.map(one, parts[1:]))
+    for part, outs, err in results:
+        if outs is None:
+            ck.note_inconclusive("miri shard timed out")
+            continue
+        done += len(outs)
+        for o in outs:
+            ck.count()
+            if o["status"] == "panic":
+                ck.violation(psig(o), dict(input=part[o["id"]], workload="miri", panic=common.brief(o)))
+        if len(outs) < len(part):
+            m = re.search(r"error: (Undefined Behavior[^\n]*|memory leaked[^\n]*|[^\n]*)", err)
+            culprit = part[len(outs)] if len(outs) < len(part) else ""
+            ck.violation("miri|" + (m.group(1)[:80] if m else "abnormal end"), dict(input=culprit, miri=err[-1500:]))
+    ck.extra["miri_slice"] = {"inputs": len(srcs), "completed": done, "note": "interpreted with stacked-borrows / leak checks on; reported as a count, not as memory safety"}
